@@ -6,7 +6,7 @@ logic of `sample_response`.  Tie H: every C output of `quat_lattice_lll` is fed 
 model driver) and to an independent exact-rational oracle written here (fractions); the dimension-2 routines and the
 sample_response decision logic are compared with their executable Lean models on generated inputs.
 """
-import json, os, subprocess, time
+import atexit, json, os, signal, subprocess, time
 from fractions import Fraction
 import vlib
 
@@ -277,6 +277,75 @@ def gen_unimod_huge(rng, kind, bits):
 UNIMOD_KINDS = ["upper", "lower", "upper*lower", "lower*upper", "block(D,D+1;1,1)"]
 
 
+# ---------------------------------------------------------------------------------- process hygiene
+# Every child (C driver incl. its forked grandchildren under alarm, Lean model driver) runs in its OWN process group
+# with a wall-clock timeout; the whole group is SIGKILLed on timeout, on any exception, and at interpreter exit
+# (atexit + SIGTERM/SIGINT/SIGHUP handlers), so that a hanging routine can never leave a process of this check behind.
+_LIVE_GROUPS = set()
+
+
+def _kill_group(pgid):
+    try:
+        os.killpg(pgid, signal.SIGKILL)
+    except (ProcessLookupError, PermissionError, OSError):
+        pass
+
+
+def _kill_all_groups(*_a):
+    for g in list(_LIVE_GROUPS):
+        _kill_group(g)
+    _LIVE_GROUPS.clear()
+
+
+def _on_signal(signum, _frame):
+    _kill_all_groups()
+    signal.signal(signum, signal.SIG_DFL)
+    os.kill(os.getpid(), signum)
+
+
+atexit.register(_kill_all_groups)
+for _sig in (signal.SIGTERM, signal.SIGINT, signal.SIGHUP):
+    try:
+        signal.signal(_sig, _on_signal)
+    except (ValueError, OSError):      # not in the main thread
+        pass
+
+
+def run_group(cmd, lines, timeout):
+    """run `cmd` with the op lines on stdin in its own session/process group; returns (rc, stdout, stderr, timed_out).
+    The group is killed before returning in every case (normal end included: stragglers of a finished driver)."""
+    p = subprocess.Popen(cmd, stdin=subprocess.PIPE, stdout=subprocess.PIPE, stderr=subprocess.PIPE, start_new_session=True)
+    _LIVE_GROUPS.add(p.pid)
+    timed_out = False
+    try:
+        try:
+            out, err = p.communicate(("\n".join(lines) + "\n").encode(), timeout=timeout)
+        except subprocess.TimeoutExpired:
+            timed_out = True
+            _kill_group(p.pid)
+            out, err = p.communicate()
+        return p.returncode, out.decode("utf-8", "replace"), err.decode("utf-8", "replace")[-4000:], timed_out
+    finally:
+        _kill_group(p.pid)
+        try:
+            p.wait(timeout=5)
+        except Exception:
+            pass
+        _LIVE_GROUPS.discard(p.pid)
+
+
+def alarm_budget(lines, base=60):
+    """wall-clock budget for a batch: the sum of the per-call alarms of the forked lines (+ slack)"""
+    tot = base
+    for l in lines:
+        if l.startswith("! "):
+            try:
+                tot += int(l.split()[1]) + 1
+            except (ValueError, IndexError):
+                tot += 11
+    return tot
+
+
 # ---------------------------------------------------------------------------------- running the two sides
 class Side:
     HANG_BUDGET = 6
@@ -305,7 +374,10 @@ class Side:
                 out += ["skipped"] * len(chunk)
                 self.skipped += len(chunk)
                 continue
-            rc, o, err = vlib.run_c([self.exe[lvl]], chunk, timeout=timeout)
+            rc, so, err, to = run_group([self.exe[lvl]], chunk, min(timeout, alarm_budget(chunk) if forked else timeout))
+            o = [l[2:] for l in so.split("\n") if l.startswith("R ")]
+            if to:
+                err = "C driver exceeded its wall-clock budget and was killed (process group) " + err
             if len(o) < len(chunk):
                 o += ["<no output: C driver stopped rc=%d %s>" % (rc, err[-300:].replace("\n", " "))] * (len(chunk) - len(o))
             if forked:
@@ -313,8 +385,13 @@ class Side:
             out += o
         return out
 
-    def lean(self, lines):
-        return self.ctx.driver(lines)
+    def lean(self, lines, timeout=1800):
+        exe = os.path.join(vlib.LEAN, ".lake", "build", "bin", "driver")
+        rc, so, err, to = run_group([exe], lines, timeout)
+        if to or rc != 0:
+            raise vlib.BuildError("lean driver %s: %s" % ("timed out (killed)" if to else "failed rc=%d" % rc, err[-1500:]))
+        out = so.split("\n")
+        return out[:-1] if so.endswith("\n") else out
 
 
 def frac4(fr):
@@ -810,6 +887,22 @@ def stage_dim2(ctx, side):
         ops.append(("enum", "d2.enum %s %s %s %s %s %s %s" % (hx(q), hx(tmc[0]), hx(tmc[1]), mh, hx(bound), hx(mt), hx(p)), (q, tmc, bm, bound, p)))
         x, y = rsigned(rng, 3), rsigned(rng, 3)
         ops.append(("bac", "d2.bac %s %s %s %s %s %s %s %s" % (hx(q), hx(x), hx(y), hx(tmc[0]), hx(tmc[1]), mh, hx(bound), hx(p)), None))
+    # membership oracle of the enumeration (condition "vec == w"): is the lattice-shifted vector w = tmc - B(x,y) tested?
+    # (a) the witness of `enumeration_box_misses_ellipse` (Lean): form (4,-4,4), N = 680, z = (7,15): inside the ellipse,
+    #     never visited (bound_y = 14); both sides must say 0.  (b) random small vectors: model <-> C, and the fraction of
+    #     in-bound vectors that is visited is recorded (completeness is NOT a claimed property: soundness oracle only).
+    ops.append(("enumeq", "d2.enumeq 3 0 0 2 -1 0 1 2a8 2710 1 -f", (3, [0, 0], [[2, -1], [0, 1]], 680, [1, -15])))
+    ops.append(("enumeq", "d2.enumeq 3 0 0 2 -1 0 1 2a8 2710 2 0", (3, [0, 0], [[2, -1], [0, 1]], 680, [2, 0])))
+    for i in range(n):
+        q = rng.choice([1, 2, 3, 5, 7, 11])
+        bm = gen_m2(rng, 1 + rng.below(5), rng.choice([0, 2, 3]))
+        tmc = [rsigned(rng, 4), rsigned(rng, 4)]
+        x, y = rsigned(rng, 1 + rng.below(4)), rsigned(rng, 1 + rng.below(4))
+        w = [tmc[0] - (bm[0][0] * x + bm[0][1] * y), tmc[1] - (bm[1][0] * x + bm[1][1] * y)]
+        bound = max(0, n2(q, w) + rsigned(rng, 1 + rng.below(6)))
+        mh = " ".join(hx(v) for row in bm for v in row)
+        ops.append(("enumeq", "d2.enumeq %s %s %s %s %s %s %s %s" % (hx(q), hx(tmc[0]), hx(tmc[1]), mh, hx(bound), hx(100000), hx(w[0]), hx(w[1])),
+                    (q, tmc, bm, bound, w)))
     lines = [o[1] for o in ops]
     cout = [norm_c(o) for o in side.c(1, ["! 5 " + l for l in lines])]
     mout = side.lean(lines)
@@ -836,6 +929,12 @@ def stage_dim2(ctx, side):
                 okp, why = oracle_cvp(data[0], data[1], data[2], c)
             elif kind == "enum":
                 okp, why = oracle_enum(data[0], data[1], data[2], data[3], data[4], c)
+            elif kind == "enumeq":
+                qq, _, _, bnd, ww = data
+                inb = n2(qq, ww) <= bnd
+                if c.split()[0] == "1":
+                    okp, why = (inb and c.split()[1:] == ["1", hx(ww[0]), hx(ww[1]), "0", "0"]), "vector above norm_bound accepted / wrong element"
+                hist(ctx, "dim2_enum_membership(in-bound vector visited?)", ("in-bound:" if inb else "out-of-bound:") + c.split()[0])
         if not okp:
             ctx.violation("d2:%s:%s" % (kind, why), "dimension-2 routine violates its specification: %s" % why,
                           dict(op=line, c_output=c, model_output=m, how="echo '<op>' | drv_lll_1"))
@@ -866,6 +965,10 @@ def stage_resp(ctx, side):
     stats = dict(found_in_loop=0, fallback=0)
     margins = {1: [], 3: [], 5: []}
     dis = []
+    hyp_bad = []
+    fb_lines, fb_meta, fb_done, fb_bad = [], [], [], []
+    fb_margin = {1: [], 3: [], 5: []}
+    import math
     for l in (1, 3, 5):
         p = PRIMES[l]
         gens = ["gen.signlat %s %s" % (hx(rng.bits(60)), hx(FEXP[l])) for _ in range(per)]
@@ -912,6 +1015,22 @@ def stage_resp(ctx, side):
             margins[l].append(rl - (math.log2(n0.numerator) - math.log2(n0.denominator)))
             mlines.append("resp.model %s %s %s %s %s %s" % (hx(cp), hx(rl), hx(denom), hx(content), parts[2], parts[4]))
             midx.append((line, parts, okp))
+            # hypotheses of `fallback_short_of_certificate` on this input: accepted certificate for (lattice, lll) and
+            #   p^2 det(lattice)^2 < (delta-eta^2)^6 (dg 2^(rl+1))^4,  dg = denom^2 content / 2
+            dg = abs(denom * denom * content) // 2
+            c6 = (DELTA_CHK - ETA_CHK ** 2) ** 6
+            lhs = Fraction(cp * cp * det_int(lat) ** 2)
+            rhs = c6 * (dg * 2 ** (rl + 1)) ** 4
+            fb_lines.append("lll.check %s %s %s %s" % (check_args(DELTA_CHK, ETA_CHK), hx(cp), mat_hex(lat), mat_hex(lll)))
+            fb_meta.append((line, lhs < rhs))
+            if lhs > 0:
+                fb_margin[l].append((math.log2(rhs.numerator) - math.log2(rhs.denominator) - math.log2(lhs.numerator)) / 4)
+        if fb_lines[len(fb_done):]:
+            for (line, detok), r in zip(fb_meta[len(fb_done):], side.lean(fb_lines[len(fb_done):])):
+                fb_done.append(1)
+                hist(ctx, "resp_fallback_theorem_hypotheses(certificate accepted, determinant inequality)", "%s,%s" % (r == "0", detok))
+                if r != "0" or not detok:
+                    fb_bad.append(dict(op=line[:200], lllCheck=r, det_inequality=detok))
         mo = side.lean(mlines)
         for (line, parts, okp), m in zip(midx, mo):
             mp = [x.strip() for x in m.split("|")]
@@ -922,12 +1041,28 @@ def stage_resp(ctx, side):
             stats["found_in_loop" if found else "fallback"] += 1
             hist(ctx, "resp_candidates_consumed", mw[6] if len(mw) > 6 else "?")
             cb = " ".join(parts[3].split())
+            hyp = mp[2] if len(mp) > 2 else "?"
+            hist(ctx, "resp_asserted_conditions(dg>0,division exact,2*norm even,det lll!=0)", hyp)
+            if hyp != "1111":
+                hyp_bad.append(dict(op=line[:200], flags=hyp))
             if cx != mx or (len(mp) > 1 and cb != mp[1]):
                 dis.append(dict(op=line[:200], impl_x=cx, model_x=mx, impl_bounds=cb, model_bounds=mp[1] if len(mp) > 1 else ""))
                 if okp:
                     ctx.violation("model:resp", "decision-logic model of sample_response disagrees with the C code "
                                   "(response still short and in the lattice)", dis[-1], found=False)
     ctx.obligation("correspondence sample_response decision logic vs C on replayed candidate draws", not dis, json.dumps(dis[:2])[:600])
+    ctx.obligation("hypotheses of sample_response_found_pos (the three C asserts + full rank) hold on every signing-shaped input",
+                   not hyp_bad, json.dumps(hyp_bad[:2])[:400])
+    ctx.obligation("hypotheses of fallback_short_of_certificate (accepted certificate + determinant inequality) hold on every "
+                   "signing-shaped input", not fb_bad, json.dumps(fb_bad[:2])[:400])
+    ctx.coverage["resp_fallback_determinant_margin_bits(per unit of norm)"] = {
+        str(l): dict(min=round(min(v), 2), n=len(v)) for l, v in fb_margin.items() if v}
+    if fb_bad:
+        ctx.violation("resp:fallback-hypothesis-fails", "the hypotheses under which the fallback branch of sample_response is proved "
+                      "short fail on a signing-shaped lattice", fb_bad[0], found=False)
+    if hyp_bad:
+        ctx.violation("resp:asserted-condition-fails", "a condition that sample_response only asserts (divisor positive / exact division / "
+                      "even 2*norm / full-rank LLL basis) fails on a signing-shaped lattice", hyp_bad[0], found=False)
     ctx.coverage["resp"] = stats
     ctx.coverage["resp_first_lll_vector_margin_bits(response_length - log2 norm)"] = {
         str(l): dict(min=round(min(v), 2), max=round(max(v), 2), n=len(v)) for l, v in margins.items() if v}
@@ -979,13 +1114,6 @@ def stage_corpus(ctx, side):
                     ok, why = False, "Lean lllCheck rejects the output (code %s)" % lc
         if ok:
             n_ok += 1
-        elif e.get("open_key") and ow and ow[0] == e.get("open_outcome", "-1") and det_int(lat) != 0:
-            # a finding whose repair is delivered as a patch but not committed yet: exactly this outcome is reported
-            # under its fixed key (KNOWN-FINDING once listed open in known_findings.json); after the fix the entry is
-            # an ordinary regression replay ("expected_after_fix")
-            n_ok += 1
-            hist(ctx, "corpus_open_findings_confirmed", e["open_key"])
-            ctx.violation(e["open_key"], e.get("what", ""), replay)
         else:
             ctx.violation("corpus:" + e.get("name", f), "recorded finding is back (%s): %s" % (e.get("what", "")[:120], why), replay)
     ctx.obligation("corpus of past findings (%d replays) passes on the current tree" % len(files), n_ok == len(files),
